@@ -9,7 +9,11 @@ Stages
   3. oracle on the implementation alone -- this is TESTING and is labelled so: autograd vs central finite differences with one
      Richardson step, for every element class x differentiable parameter x beam type x tracking method x outgoing-beam
      quantity, incl. the exactly-zero points, 2-4 element segments and beam parameters.
-  4. known findings (F6, F7, F60, F61, F62, F63, F64) are classified by signature; anything else is a violation.
+     Degenerate beams (exactly-on-axis particles, zero moments) are tracked behind an upstream element with a live parameter so
+     that the gradient has to flow THROUGH the coordinate transformation of every class x tracking method.
+  4. known findings (F6, F7, F60, F61, F62, F63, F64, F65) are classified by signature = WHERE (class, parameter, point) + WHAT (the
+     characterised wrong value: exactly 0 / None / NaN / the F64 band of Optics/DerivF64.v / the F63 cut-graph value) +
+     ATTRIBUTION (the case passes with the exact-zero point moved off zero); anything else at the same point is a violation.
      A signature suppresses a failure only while known_findings.json lists that finding with status `known` for C05.  Once a
      finding is flipped to `fixed` (F62: Dipole.__init__ registered fringe_integral_exit with torch.tensor(...), a detached copy,
      so its gradient was always None; repaired by torch.as_tensor) its signature suppresses nothing: the gradient must exist and
@@ -294,7 +298,9 @@ def compare(case):
     names, y, ag = agr
     # sigma_* = sqrt(variance) at a variance of (almost) zero (degenerate beams: a coordinate shared by all particles, a zero row
     # of cov): not differentiable / NaN under finite differences -- unspecified, dropped; every other output is still compared
-    keep = [not (n.startswith("sigma_") and not (abs(v) > SIGMA_FLOOR)) for n, v in zip(names, y)]
+    # likewise a sigma_* that the finite-difference step itself changes by more than 10 % (sqrt next to its branch point)
+    keep = [not (n.startswith("sigma_") and not (abs(v) > SIGMA_FLOOR and (abs(f) + e) * h <= 0.1 * abs(v)))
+            for n, v, f, e in zip(names, y, fd, err)]
     names, y, ag, fd, err = ([v for v, k in zip(lst, keep) if k] for lst in (names, y, ag, fd, err))
     if any(not math.isfinite(v) for v in y) or any(not math.isfinite(v) for v in fd):
         # the forward pass itself (or its neighbours) is not finite: C09's business, unspecified here
@@ -406,7 +412,7 @@ def signature(case, res):
 
 
 # ---- WHAT is observed (value) and ATTRIBUTION (the failure belongs to the finding's exact-zero point) ----------------
-NUDGE = {"k1": 1.3e-3, "misalignment": 3.3e-6, "tilt": 3.3e-4, "voltage": 3.3e3, "k": 3.3e-4, "coordinate": 1.7e-7}
+NUDGE = {"k1": 1.3e-3, "misalignment": 3.3e-6, "tilt": 3.3e-4, "voltage": 3.3e3, "k": 3.3e-4, "coordinate": 3.1e-5}
 F64_ETA = 2.0 ** -51        # |error of the stored cos(1e-6 L)|: four units in the last place below 1 (DerivF64.disp_float_bound)
 M_E = 510998.95069
 
@@ -434,7 +440,7 @@ def nudged(case, fid):
         for q, r_ in enumerate(c["beam"]["particles"]):
             for i in range(5):
                 if r_[i] == 0.0:
-                    r_[i] = NUDGE["coordinate"] * (1 + q + 0.37 * i)
+                    r_[i] = NUDGE["coordinate"] * (1 + 0.1 * q + 0.037 * i)
         for e in c["lattice"]:          # a zero kick leaves a particle on its node: move that too
             if e["cls"] in ("HorizontalCorrector", "VerticalCorrector") and float(e["kw"].get("angle", 0.0)) == 0.0:
                 e["kw"]["angle"] = 1.3e-5
@@ -527,26 +533,6 @@ def f63_value(case, res):
     return True, None
 
 
-def f65_kink(case, res):
-    """F65 bounds WHAT is observed: the outgoing quantity has a kink at the point (one-sided finite differences disagree) and the
-    autograd value is finite"""
-    t0 = theta0(case)
-    sc, hrel = param_scale(case)
-    h = 1e-2 * hrel * max(abs(t0), sc)
-    idx = {n: i for i, n in enumerate(evaluate(case, t0)[1])}
-
-    def f(th):
-        with torch.no_grad():
-            return [float(v) for v in evaluate(case, th)[2]]
-    f0, fp, fm = f(t0), f(t0 + h), f(t0 - h)
-    for b in res["bad"]:
-        i = idx[b["output"]]
-        right, left = (fp[i] - f0[i]) / h, (f0[i] - fm[i]) / h
-        if not abs(right - left) > 4 * b["tol"]:
-            return False, f"{b['output']}: no kink (one-sided differences {left!r}, {right!r}) but autograd {b['autograd']!r} != fd {b['fd']!r}"
-    return True, None
-
-
 def confirm(case, res, fid):
     """(True, None) if the observation is the characterised wrong value of `fid` and the failure is attributable to it"""
     if fid == "F62":
@@ -557,11 +543,8 @@ def confirm(case, res, fid):
         ok, why = f63_value(case, res)
         if not ok:
             return ok, why
-    if fid == "F65":
-        ok, why = f65_kink(case, res)
-        if not ok:
-            return ok, why
-    # F6: exactly 0, F60/F61: None, F7: NaN -- already required by `signature`.  Attribution: off the exact-zero point the case passes
+    # F6: exactly 0, F60/F61: None, F7: NaN, F65: finite -- already required by `signature`.  Attribution: off the exact-zero point
+    # (F65: every exactly-zero coordinate moved off the grid node by 3e-5, more than the finite-difference step) the case passes
     c2 = nudged(case, fid)
     r2 = compare(c2)
     if r2["status"] == "ok":
@@ -917,7 +900,7 @@ def run_oracle(run, cases):
 # =====================================================================================================================
 PREAMBLE = """From Coq Require Import Reals Lra.
 From Interval Require Import Tactic.
-From Cheetah Require Import Base.Mat Optics.Maps Optics.CS Optics.Flow Optics.Deriv Optics.DerivTac Optics.DerivRefute.
+From Cheetah Require Import Base.Mat Optics.Maps Optics.CS Optics.Flow Optics.Deriv Optics.DerivTac Optics.DerivRefute Optics.DerivF64.
 Open Scope R_scope."""
 
 M_E_IN_MAPS_V = 510998.95069
@@ -1001,6 +984,9 @@ def corr_points(rng, n_random):
     pts.append(("bend_k1", dict(L=0.5, k1=-1.0, a=-0.3, E=2e7, cls="RBend")))
     pts.append(("bend_angle", dict(L=1.0, k1=0.5, a=0.1, E=E0, cls="Dipole")))
     pts.append(("bend_angle", dict(L=0.5, k1=-2.0, a=0.2, E=E0, cls="Dipole")))
+    pts.append(("bend_angle_zero", dict(L=1.0, E=E0, cls="Dipole")))
+    pts.append(("bend_angle_zero", dict(L=0.5, E=2e7, cls="RBend")))
+    pts.append(("bend_angle_zero", dict(L=rng.choice([0.1, 0.25, 2.0]), E=rng.choice(ENERGIES), cls=rng.choice(["Dipole", "RBend"]))))
     pts.append(("seg_k1", dict(L=0.3, k1=2.0, Ld=0.5, E=E0)))
     pts.append(("seg_Ld", dict(L=0.3, k1=-1.5, Ld=0.5, E=E0)))
     for _ in range(n_random):
@@ -1066,6 +1052,38 @@ def corr_goal(fam, p):
             for ij in entries:
                 cond[ij] = kap
             exact_zero = [(0, 2), (0, 5), (1, 5), (4, 0), (4, 5), (6, 6)]
+    elif fam == "bend_angle_zero":
+        # F64: Dipole / RBend at angle = 0, k1 = 0 (edge angles 0: the edge maps are identities and their derivative w.r.t. the
+        # angle vanishes).  The guarded program is differentiable there (DerivF64.sbend_dangle_guard_at0); the entries other than
+        # the dispersion pair must match its closed form to 2^-36; the dispersion pair R16, R52 must be explained by a stored
+        # cos(1e-6 L) that is off by at most 2^-51 (DerivF64.f64_eta / f64_observation_band) -- nothing wider is accepted as F64
+        L = p["L"]
+        cls = getattr(cheetah, p["cls"])
+        obs = tm_jacobian(lambda th: cls(length=T(L), angle=th, k1=T(0.0), dtype=D).transfer_map(Et), 0.0,
+                          [(i, j) for i in range(7) for j in range(7)])
+        fine, disp = [(1, 5), (4, 0), (0, 0), (0, 1), (1, 0), (4, 5)], [(0, 5), (4, 1)]
+        res = {"family": fam, "point": p, "observed": {f"{i},{j}": obs[(i, j)] for (i, j) in fine + disp}, "goals": [], "finding": None, "kind": "num"}
+        if any(obs[ij] is None or not math.isfinite(obs[ij]) for ij in fine + disp):
+            res.update(kind="broken", why=f"autograd w.r.t. the angle at angle = 0, k1 = 0 returned {res['observed']} (None/NaN channel)")
+            return res
+        pL, pE = env("L", L), lE
+        names = " ".join(n for n, _ in env.binders)
+        prefix = f"forall {names} : R, " + "".join(f"{lit(x)} <= {n} <= {lit(x)} -> " for n, x in env.binders)
+        intro = "intros " + names + " " + " ".join("H" + n for n, _ in env.binders) + ". "
+        term = f"(rmscale (/ {pL}) (dsbend_dhx {pL} 1e-12 0 {pE}))"
+        tols = {ij: 2.0 ** -36 * (abs(obs[ij]) + 2.0 + L) + 2.0 ** -80 for ij in fine}
+        res["goals"].append((prefix + " /\\ ".join(f"Rabs (m7nth {term} {i} {j} - {lit(obs[(i, j)])}) <= {lit(tols[(i, j)])}" for (i, j) in fine),
+                             f"{intro}c05_num."))
+        res["goals"].append((prefix + " /\\ ".join(f"Rabs (f64_eta {pL} {pE} {lit(obs[ij])}) <= / 2 ^ 51" for ij in disp),
+                             f"{intro}unfold f64_eta, beta_of, igamma2_of; c05_guards; unfold gamma_of, m_e, Rsqr; repeat split; interval with (i_prec 90)."))
+        beta = math.sqrt(1.0 - (M_E_IN_MAPS_V / E) ** 2)
+        true = L / 2 / beta
+        res["tol"] = {"fine": {f"{i},{j}": tols[(i, j)] for (i, j) in fine}, "dispersion_band": (F64_ETA / 1e-12 + 1e-12 * L ** 4 / 24) / (L * beta)}
+        if all(abs(obs[ij] - true) <= 2.0 ** -36 * (1 + true) for ij in disp):
+            res["not_reproduced"] = "F64"
+        else:
+            res.update(kind="finding", finding="F64")
+        return res
     elif fam in ("bend_k1", "bend_angle"):
         # edge angles, fringe integral and tilt are 0: the code's edge / rotation factors are exact identities in floats and do
         # not depend on k1; for RBend dipole_e = rbend_e + angle/2 must vanish, hence rbend_e = -angle/2
@@ -1307,6 +1325,11 @@ def corr_search_cases(b):
         if fam.startswith("seg"):
             lat.append({"cls": "Drift", "kw": dict(length=p["Ld"], tracking_method="cheetah")})
             wrts.append(["elem", 1, "length", None])
+    elif fam == "bend_angle_zero":
+        e = "dipole_e" if p["cls"] == "Dipole" else "rbend_e"
+        lat = [{"cls": p["cls"], "kw": {"length": p["L"], "angle": 0.0, "k1": 0.0, e + "1": 0.0, e + "2": 0.0, "tilt": 0.0,
+                                         "tracking_method": "cheetah"}}]
+        wrts = [["elem", 0, "angle", None], ["elem", 0, "length", None]]
     elif fam.startswith("dipole"):
         e = "dipole_e" if p["cls"] == "Dipole" else "rbend_e"
         lat = [{"cls": p["cls"], "kw": {"length": p["L"], "angle": 0.0, "k1": p["k1"], e + "1": 0.0, e + "2": 0.0, "tilt": 0.0,
@@ -1374,8 +1397,13 @@ def main(tier, replay=None):
     run.cov["rule"] = ("correspondence: autograd of transfer_map entries w.r.t. one buffer at special points (exact zeros, both signs of k1, "
                        "|k1| = 1e-3) and random points vs the Coq derivative matrices (interval goals). Oracle (testing): for every element class x "
                        "differentiable parameter x beam type x tracking method, one all-zero point and %d random points; segments of 2-4 elements; "
-                       "beam parameters; all outgoing mu/sigma/cov/particle coordinates/energy; autograd vs Richardson-extrapolated central "
-                       "differences. Non-trivial = at least one outgoing quantity depends on the parameter; distinct by full case content."
+                       "beam parameters; degenerate beams (all-zero reference particle, px = py = 0, x = y = 0, zero-divergence beam, one "
+                       "coordinate exactly 0 for all particles, duplicate particles; ParameterBeam with zero mean, zero cov row, diagonal "
+                       "or zero cov) behind an upstream element with a live parameter for every class x tracking method, differentiated "
+                       "w.r.t. the upstream parameter and the incoming beam; all outgoing mu/sigma/cov/particle coordinates/energy; "
+                       "autograd vs Richardson-extrapolated central differences. A failure is a known finding only if point, observed "
+                       "value (0 / None / NaN / F64 band / F63 cut-graph value) and attribution (passes off the exact-zero point) all "
+                       "match. Non-trivial = at least one outgoing quantity depends on the parameter; distinct by full case content."
                        % (12 if thorough else 1))
     if replay:
         return do_replay(run, replay)
@@ -1414,7 +1442,13 @@ def main(tier, replay=None):
         "that torch.autograd returns the Coq-proved derivative: sampled points only (interval correspondence + finite differences)",
         "Bmad-X tracking, Cavity (voltage != 0), TransverseDeflectingCavity, SpaceChargeKick, CustomTransferMap, Dipole/RBend with edges, "
         "beam-parameter gradients, ParticleBeam statistics (mu_*, sigma_*): finite-difference oracle only",
-        "finite-difference tolerance: 1e-5 relative + 50 x Richardson error estimate + 1e-6 x (output scale / parameter scale)"]
+        "finite-difference tolerance: 1e-5 relative + 50 x Richardson error estimate + 1e-6 x (output scale / parameter scale)",
+        "gradients THROUGH every element class x tracking method at exactly-on-axis particles / zero moments (upstream parameter, "
+        "incoming beam): finite-difference oracle only",
+        "known-finding signatures: F64's band is proved in Optics/DerivF64.v and tied to the observation by an interval goal at the "
+        "transfer-map level; at the level of outgoing quantities the band is applied through a measured sensitivity; F63's and F65's "
+        "wrong values (|.| with subgradient 0) and all attribution tests are checked on the implementation only",
+        "sigma_* outputs with a variance at (or, relative to the finite-difference step, next to) zero are unspecified and dropped"]
 
     # ---- verdict
     if viol:
@@ -1425,6 +1459,7 @@ def main(tier, replay=None):
             return r2["status"] == "mismatch" and classify(c2, r2) is None
         case = shrink(case, same)
         res = compare(case)
+        classify(case, res)           # records why the failure is not a known finding (if its point matches one)
         run.violation(replay_dict(case, res))
     elif broken:
         run.violation({"kind": "correspondence", "broken": "autograd of transfer_map entries disagrees with the Coq derivative model (Optics/Deriv.v)",
